@@ -363,6 +363,8 @@ func (p *Proxy) handleConnectRequest(ctx *Context, req *http.Request, session *S
 			}
 			brw.Writer.Reset(nconn)
 			brw.Reader.Reset(nconn)
+			// From here on the session's connection is the decrypted one (this is what a hijacker gets).
+			session.setConn(nconn, brw)
 			return p.handle(ctx, nconn, brw)
 		}
 
